@@ -95,7 +95,9 @@ fn frame(sc: i64, r: &Report, k: usize) -> Vec<u8> {
     let payload = if r.kind == 0 {
         let tcs = [9u64, 10, 11, 12, 13, 14, 15, 16, 17, 18, 20, 21, 22];
         let tc = tcs[(fill % tcs.len() as u64) as usize];
-        let alt = 0x010 | ((5 + fill % 0x7a) << 5) | (fill & 0xf); // Q = 1, N >= 80: 1000 ft and above
+        // Q = 1, N >= 80: 1000 ft and above; every fourth airborne report carries no altitude at all
+        // (all-zero field: "altitude not available" - a position report like any other)
+        let alt = if fill % 4 == 3 { 0 } else { 0x010 | ((5 + fill % 0x7a) << 5) | (fill & 0xf) };
         pack(&[(5, df), (3, first), (24, icao), (5, tc), (2, 0), (1, 0), (12, alt), (1, 0),
                (1, r.par as u64), (17, r.yz), (17, r.xz)])
     } else {
